@@ -102,9 +102,16 @@ class Emitter:
         self.nif = 0
         self.tag = 0
 
-    def emit(self, prog, extra_decls=""):
+    def emit(self, prog, extra_decls="", split_at=None):
+        """split_at = k: the top-level statements from index k on live in a second block reached by cf.br"""
         lines = []
-        self._seq(prog, lines, "  ", [])
+        if split_at is None:
+            self._seq(prog, lines, "  ", [])
+        else:
+            self._seq(prog[:split_at], lines, "  ", [])
+            lines.append("  cf.br ^bb1")
+            lines.append("^bb1:")
+            self._seq(prog[split_at:], lines, "  ", [])
         args = list(self.buf_args) + [f"%c{k} : i1" for k in range(self.nif)] + [f"%n{k} : index" for k in range(self.nfor)]
         text = "builtin.module {\n" + extra_decls + "func.func @f(" + ", ".join(args) + ") {\n  %zero = arith.constant 0 : index\n  %one = arith.constant 1 : index\n" + "\n".join(lines) + "\n  func.return\n}\n}\n"
         return text
